@@ -78,11 +78,11 @@ Theorem C01_encode_ok_below_4GiB : forall g frame, geom_ok g -> bytesP frame -> 
 Proof. exact rle_encode_ok_below_4GiB. Qed.
 Print Assumptions C01_encode_ok_below_4GiB.
 
-(* The same through decodeFrame's FrameInfo argument (uint16 fields, BitsAllocated 8/16/32,
-   Rows, Columns in 1..65535): the allocation does not panic and the result is the frame. *)
+(* The same through encodeFrame's / decodeFrame's FrameInfo argument (uint16 fields,
+   BitsAllocated 8/16/32, Rows, Columns in 1..65535), description checks and allocation included. *)
 Theorem C01_roundtrip_frameinfo : forall fi frame enc, fi_ok fi -> bytesP frame ->
   zlen frame = frame_len (fi_geom fi) ->
-  rle_encode (fi_geom fi) frame = Ok enc ->
+  rle_encode_frame fi frame = Ok enc ->
   rle_decode_frame fi enc = Ok (frame ++ pad_of (fi_geom fi)).
 Proof. exact rle_roundtrip_frameinfo. Qed.
 Print Assumptions C01_roundtrip_frameinfo.
